@@ -375,12 +375,17 @@ def soak_histories():
         h += [["link", G, "data_arrays", arr("n%d" % i)] for i in perm]
         h += [["link", T, "references", arr("n%d" % i)] for i in perm]
         h += [["lookup", G, "data_arrays", arr("n%d" % perm[1])]]
-        h += [["unlink", G, "data_arrays", "idx", 0], ["unlink", G, "data_arrays", "idx", 1], ["unlink", G, "data_arrays", "idx", 0]]
-        h += [["unlink", T, "references", "idx", 1]] * 3                 # position 0 is "sig"
+        # one member goes by index (the first), the others by name: the list is empty afterwards
+        h += [["unlink", G, "data_arrays", "idx", 0], ["unlink", G, "data_arrays", "name", "n%d" % perm[2]],
+              ["unlink", G, "data_arrays", "name", "n%d" % perm[1]]]
+        h += [["unlink", T, "references", "idx", 1], ["unlink", T, "references", "name", "n%d" % perm[1]],
+              ["unlink", T, "references", "idx", 1]]                      # position 0 is "sig"
     # the same with entities: the sources below one source
     for perm in ((1, 2, 3), (2, 1, 3), (1, 2, 3), (3, 1, 2)):
         h += [["create", S1 + ["sources", "src"], "sources", "n%d" % i] for i in perm]
-        h += [["delete", S1 + ["sources", "src"], "sources", "idx", 0]] * 3
+        h += [["delete", S1 + ["sources", "src"], "sources", "idx", 0],
+              ["delete", S1 + ["sources", "src"], "sources", "name", "n%d" % perm[2]],
+              ["delete", S1 + ["sources", "src"], "sources", "name", "n%d" % perm[1]]]
     out.append(h)
     return out
 
